@@ -55,6 +55,7 @@ type evmcSetup struct {
 	TxValue string            `json:"txValue"` // value attached to the top-level tx (only when top is a call)
 	Denom2  bool              `json:"denom2"`  // rewards also in a second denomination
 	Gas     uint64            `json:"gas"`     // gas limit of the transaction under test (default 3,000,000)
+	Fresh   bool              `json:"fresh"`   // a further role F: an address without an account (no coins, nothing)
 	PriorLog bool             `json:"priorLog"` // an earlier transaction of the same block emits a log (the log index of the block is not 0)
 	Acl     bool              `json:"acl"`     // EIP-2930 transaction whose access list names every contract of the tree and the roles (all callees warm)
 }
@@ -104,6 +105,10 @@ func (r *evmcRun) project(ctx sdk.Context) M {
 	nvals := len(r.n.W.Vals)
 	valName := func(i int) string { return fmt.Sprintf("V%d", i+1) }
 	bank, deleg, ubd, rewards, wd, storage, nonce, code := M{}, M{}, M{}, M{}, M{}, M{}, M{}, M{}
+	exists := M{}
+	for _, nm := range r.names {
+		exists[nm] = app.AccountKeeper.HasAccount(ctx, r.addrs[nm])
+	}
 	nameOf := map[string]string{}
 	for _, nm := range r.names {
 		nameOf[r.addrs[nm].String()] = nm
@@ -265,7 +270,7 @@ func (r *evmcRun) project(ctx sdk.Context) M {
 		storage["_"] = M{"_": 0}
 	}
 	return M{"bank": bank, "mods": mods, "supply": bigStr(app.BankKeeper.GetSupply(ctx, utils.BaseDenom).Amount),
-		"deleg": deleg, "ubd": ubd, "rewards": rewards, "wd": wd, "grants": grants, "grantVals": grantVals, "grantExp": grantExp, "storage": storage, "nonce": nonce, "code": code, "commission": comm}
+		"exists": exists, "deleg": deleg, "ubd": ubd, "rewards": rewards, "wd": wd, "grants": grants, "grantVals": grantVals, "grantExp": grantExp, "storage": storage, "nonce": nonce, "code": code, "commission": comm}
 }
 
 func evmcOne(tw *TraceWriter, scn int, src string, sc evmcScenario) {
@@ -280,6 +285,9 @@ func evmcOne(tw *TraceWriter, scn int, src string, sc evmcScenario) {
 	ew.Roles["S"] = w.Acct(signer)
 	ew.Roles["T"] = w.Acct("a2")
 	ew.Roles["W"] = w.Acct("a3")
+	if sc.Setup.Fresh {
+		ew.Roles["F"] = DetKey(cfg.Seed, "fresh-F")
+	}
 	r := &evmcRun{n: n, w: ew, addrs: map[string]sdk.AccAddress{}, frames: map[int]string{}}
 	S, T := ew.Roles["S"], ew.Roles["T"]
 
@@ -306,6 +314,9 @@ func evmcOne(tw *TraceWriter, scn int, src string, sc evmcScenario) {
 		}
 	}
 	r.names = []string{"S", "T", "W"}
+	if sc.Setup.Fresh {
+		r.names = append(r.names, "F")
+	}
 	for c := range cset {
 		r.names = append(r.names, c)
 	}
